@@ -4,6 +4,9 @@ import json, os
 ROOT = os.path.dirname(os.path.dirname(os.path.abspath(__file__)))
 props = [json.loads(l) for l in open(os.path.join(ROOT, "properties.jsonl"))]
 CLAIMED = {
+ "C19": ("Build status and behavioural identity are decided on the real code: the harness is rebuilt against /repo's working tree for all 8 subsets of {std, macho, pe} (default-features off) and a fixed battery of DWARF and frame-pointer scenarios (ground-truth walks on both architectures and policies, fallback matrix, three presentations) is run on each binary; every result line must equal the default build's, which in turn is held to the model and to the truth oracles. What a theorem carries: the only place where features decide a module's unwind data (ModuleUnwindDataInternal::new) is regenerated from the source as the ordered selector list (guarding feature, section); kernel-checked: for any two feature sets, a module that offers only sections the unguarded DWARF part looks at (or none) gets the same kind, and no guarded selector looks at a DWARF section name.",
+         "8 real builds + battery digests (decides the property) + theorem (Coq) over the regenerated selector list",
+         "Partial by nature: a theorem cannot exhibit a build failure; 'builds' means host-target cargo build per subset (no bare-metal target installed). The cfg_if matrix of the Unwinding trait is covered by the builds only."),
  "C03": ("Kernel-checked theorems: for every PE module whose unwind data is well-formed at the address (chain of UNWIND_INFOs present and finite, chained infos keep the frame register, stack adjustments multiples of 8, mov-saves listed first as compilers emit them, text bytes available for an innermost frame, a caller frame not inside an epilog) and ARBITRARY registers and stack on which the documented unwind procedure (Pe.ms_unwind: function-table lookup, epilog simulation, unwind codes filtered by prolog offset with the frame base fixed on entry, chained infos, machine frames; exact arithmetic) succeeds, Unwinder::unwind_frame returns the same return address (null = end of stack) and the same sixteen general-purpose registers - through the compressed cacheable rule (proved lossless for every (offset|pop)* sequence the encoder accepts, via the register-ordering round trip) and through the uncacheable path; walks over described activations yield exactly the chain and complete with Ok(None). The specification itself is run (extracted) against an independent Python transcription of the procedure on every input. Real code: synthesized PE programs with real prolog/epilog bytes (push, MSVC home-space saves, frame register + dynamic allocation, alloc-large both forms, chained cold regions, leaves without table entry), call chains, every interruption point, fresh and warmed cache, compared with the truth known by construction; plus arbitrary registers/stack against the oracle procedure.",
          "theorem (Coq, refinement to the documented procedure + losslessness of rule compression) + ground-truth and procedure oracles on real code + specification-vs-oracle check",
          "pe-unwind-info's byte parsers (.pdata, UNWIND_INFO, epilog instruction decoder) are transcribed and tied by correspondence, not verified; UWOP_EPILOG (version 2) and XMM register values are outside; data that compilers do not emit (mov-saves after stack adjustments, stack adjustments not divisible by 8, chained infos with another frame register) is excluded by the well-formedness hypothesis."),
